@@ -1,7 +1,709 @@
 package main
 
-// Replay of verifier counterexamples against the real code (go test -overlay, nothing written into /repo).
+// Replay of verifier counterexamples against the real code.
+//
+// A refuted obligation comes with a model of the function's inputs. Where the function can be called from a test with
+// those inputs alone — a package-level function (or a method on a scalar/string receiver) all of whose parameters are
+// booleans, integers or strings — the model is turned into an in-package Go test that calls the real function with
+// the model's values and then evaluates the failed clause (translated to Go) on the real results, or, for a
+// runtime-fault obligation, expects the panic. The test runs through `go test -overlay`, so nothing is written into
+// the repository. Only when the real code shows the failure is the violation "confirmed"; the solver's model lives
+// in a world where library functions are arbitrary functions satisfying their contracts, so a model that does not
+// reproduce is reported as such (no-failing-input-found).
+//
+// Not replayable (stays unconfirmed): functions with pointer, struct, slice, map, interface or function parameters,
+// function literals, clauses with quantifiers, ghost functions, old(), path ghosts (called/result/arg), heap reads.
+
+import (
+	"bytes"
+	"context"
+	"encoding/json"
+	"fmt"
+	"go/types"
+	"os"
+	"os/exec"
+	"path/filepath"
+	"strconv"
+	"strings"
+	"time"
+
+	"golang.org/x/tools/go/ssa"
+)
+
+const replayMaxStr = 48 // bytes of a string parameter requested from the model
+
+func replayable(fn *ssa.Function) bool {
+	if fn == nil || fn.Parent() != nil || fn.Pkg == nil || fn.Object() == nil {
+		return false
+	}
+	for i, p := range fn.Params {
+		if i == 0 && fn.Signature.Recv() != nil && !simpleType(p.Type()) {
+			// a value receiver that is a map, slice or struct is replayed with its zero value (enough for methods
+			// that do not read it; otherwise the replay simply does not reproduce)
+			switch p.Type().Underlying().(type) {
+			case *types.Map, *types.Slice, *types.Struct:
+				continue
+			}
+		}
+		if !simpleType(p.Type()) {
+			return false
+		}
+	}
+	return true
+}
+
+func simpleType(t types.Type) bool {
+	b, ok := t.Underlying().(*types.Basic)
+	if !ok {
+		return false
+	}
+	return b.Info()&(types.IsBoolean|types.IsInteger|types.IsString) != 0
+}
+
+// modelTerms: the SMT terms whose values are needed to rebuild the inputs.
+func (o *Obligation) modelTerms() []string {
+	if o.fe == nil || !replayable(o.fe.fn) {
+		return nil
+	}
+	var ts []string
+	for _, p := range o.fe.fn.Params {
+		v := o.fe.vals[p]
+		if !simpleType(p.Type()) {
+			continue
+		}
+		if v == nil || v.T == "" {
+			return nil
+		}
+		switch v.Sort {
+		case "Int", "Bool":
+			ts = append(ts, v.T)
+		case "Str":
+			ts = append(ts, fmt.Sprintf("(len_s %s)", v.T))
+			for i := 0; i < replayMaxStr; i++ {
+				ts = append(ts, fmt.Sprintf("(at_s %s %d)", v.T, i))
+			}
+		default:
+			return nil
+		}
+	}
+	return ts
+}
+
+func smtInt(s string) (int64, bool) {
+	s = strings.TrimSpace(s)
+	neg := false
+	if strings.HasPrefix(s, "(-") {
+		neg = true
+		s = strings.TrimSpace(strings.TrimSuffix(strings.TrimPrefix(s, "(-"), ")"))
+	}
+	n, err := strconv.ParseInt(s, 10, 64)
+	if err != nil {
+		return 0, false
+	}
+	if neg {
+		n = -n
+	}
+	return n, true
+}
+
+// goLiteral renders the model's value of parameter p as a Go expression of p's type.
+func (o *Obligation) goLiteral(p *ssa.Parameter, qual types.Qualifier) (string, bool) {
+	v := o.fe.vals[p]
+	ty := types.TypeString(p.Type(), qual)
+	switch v.Sort {
+	case "Bool":
+		val, ok := o.Model[v.T]
+		if !ok {
+			val = "false" // no model (the solvers did not decide): the search starts from zero values
+		}
+		return fmt.Sprintf("%s(%s)", ty, val), true
+	case "Int":
+		n, ok := smtInt(o.Model[v.T])
+		if !ok {
+			n = 0
+		}
+		return fmt.Sprintf("%s(%d)", ty, n), true
+	case "Str":
+		n, ok := smtInt(o.Model[fmt.Sprintf("(len_s %s)", v.T)])
+		if !ok {
+			return ty + `("")`, true
+		}
+		if n < 0 || n > replayMaxStr {
+			return ty + `("")`, true // too long to rebuild: the search starts from the empty string
+		}
+		bs := make([]byte, n)
+		for i := range bs {
+			c, ok := smtInt(o.Model[fmt.Sprintf("(at_s %s %d)", v.T, i)])
+			if !ok || c < 0 || c > 255 {
+				return "", false
+			}
+			bs[i] = byte(c)
+		}
+		return fmt.Sprintf("%s(%s)", ty, strconv.Quote(string(bs))), true
+	}
+	return "", false
+}
+
+type goTr struct {
+	fn      *ssa.Function
+	eng     *Engine
+	imports map[string]string // package name -> path
+	err     error
+	ghosts  map[string]bool // ghost functions with a body that the clause uses (emitted as Go functions)
+	bound   map[string]bool // names bound by quantifiers or ghost parameters (not parameters of the function)
+	nq      int
+	iteType string // inside a ghost body: the Go type of its conditional expressions (evaluated lazily)
+}
+
+var goTypeOfGhost = map[string]string{"int": "int", "string": "string", "bool": "bool", "byte": "byte", "int64": "int64", "int32": "int32"}
+
+// ghostFuncs renders the used ghost functions (those with a body over expressible operations) as Go functions.
+func (g *goTr) ghostFuncs() string {
+	var b strings.Builder
+	done := map[string]bool{}
+	for {
+		progress := false
+		for _, n := range sortedKeys(g.ghosts) {
+			if done[n] {
+				continue
+			}
+			done[n] = true
+			progress = true
+			gh := g.eng.cs.Ghosts[n]
+			var ps []string
+			saved := g.bound
+			g.bound = map[string]bool{}
+			for k := range saved {
+				g.bound[k] = true
+			}
+			for _, p := range gh.Params {
+				gt, ok := goTypeOfGhost[p.Type]
+				if !ok {
+					g.fail("ghost %s has a parameter of type %s", n, p.Type)
+					gt = "int"
+				}
+				ps = append(ps, "g_"+p.Name+" "+gt)
+				g.bound[p.Name] = true
+			}
+			rt, ok := goTypeOfGhost[gh.Ret]
+			if !ok {
+				g.fail("ghost %s returns %s", n, gh.Ret)
+				rt = "bool"
+			}
+			g.iteType = rt
+			body := g.expr(gh.Body)
+			g.iteType = ""
+			g.bound = saved
+			fmt.Fprintf(&b, "func govcGhost_%s(%s) %s {\n\treturn %s\n}\n\n", n, strings.Join(ps, ", "), rt, body)
+		}
+		if !progress {
+			break
+		}
+	}
+	return b.String()
+}
+
+// boundedQuant recognises  forall i int :: lo <= i && i < hi ==> P   /   exists i int :: lo <= i && i < hi && P
+func (g *goTr) boundedQuant(x *Ex) (string, bool) {
+	if len(x.BVars) != 1 || x.BVars[0].Type != "int" {
+		return "", false
+	}
+	v := x.BVars[0].Name
+	body := x.Args[0]
+	var rng, rest *Ex
+	if x.Op == "forall" && body.Op == "==>" {
+		rng, rest = body.Args[0], body.Args[1]
+	} else if x.Op == "exists" && body.Op == "&&" {
+		// (lo <= i && i < hi) && P   parsed left-assoc: ((lo<=i && i<hi) && P)
+		rng, rest = body.Args[0], body.Args[1]
+	} else {
+		return "", false
+	}
+	if rng.Op != "&&" || len(rng.Args) != 2 {
+		return "", false
+	}
+	lo, hi := rng.Args[0], rng.Args[1]
+	isV := func(e *Ex) bool { return e.Op == "id" && e.Name == v }
+	var loS, hiS string
+	saved := g.bound
+	g.bound = map[string]bool{v: true}
+	for k := range saved {
+		g.bound[k] = true
+	}
+	defer func() { g.bound = saved }()
+	switch {
+	case lo.Op == "<=" && isV(lo.Args[1]):
+		loS = g.expr(lo.Args[0])
+	case lo.Op == "<" && isV(lo.Args[1]):
+		loS = "(" + g.expr(lo.Args[0]) + ")+1"
+	default:
+		return "", false
+	}
+	switch {
+	case hi.Op == "<" && isV(hi.Args[0]):
+		hiS = g.expr(hi.Args[1])
+	case hi.Op == "<=" && isV(hi.Args[0]):
+		hiS = "(" + g.expr(hi.Args[1]) + ")+1"
+	default:
+		return "", false
+	}
+	fn := "govcAll"
+	if x.Op == "exists" {
+		fn = "govcAny"
+	}
+	return fmt.Sprintf("%s(int(%s), int(%s), func(g_%s int) bool { return %s })", fn, loS, hiS, v, g.expr(rest)), true
+}
+
+func (g *goTr) fail(f string, a ...any) string {
+	if g.err == nil {
+		g.err = fmt.Errorf(f, a...)
+	}
+	return "false"
+}
+
+// expr translates a contract expression to Go, or records why it cannot.
+func (g *goTr) expr(x *Ex) string {
+	switch x.Op {
+	case "int":
+		return x.Name
+	case "str":
+		return strconv.Quote(x.Name)
+	case "id":
+		if g.bound[x.Name] {
+			return "g_" + x.Name
+		}
+		switch x.Name {
+		case "result":
+			return "ret0"
+		case "err":
+			res := g.fn.Signature.Results()
+			return fmt.Sprintf("ret%d", res.Len()-1)
+		}
+		for i, p := range g.fn.Params {
+			if x.Name == fmt.Sprintf("in%d", i) {
+				return "in_" + p.Name()
+			}
+			if p.Name() == x.Name {
+				return "in_" + p.Name()
+			}
+		}
+		if strings.HasPrefix(x.Name, "$") {
+			return g.fail("call-site name %s", x.Name)
+		}
+		return x.Name // retK, nil, true, false, package-level names of the function's own package
+	case "sel":
+		if x.Args[0].Op == "id" {
+			for _, p := range g.eng.tpkgs {
+				if p.Name() == x.Args[0].Name && !g.isLocalName(x.Args[0].Name) {
+					g.imports[p.Name()] = p.Path()
+					return p.Name() + "." + x.Name
+				}
+			}
+		}
+		if _, err := strconv.Atoi(x.Name); err == nil { // tuple component of a call
+			if x.Args[0].Op != "call" {
+				return g.fail("tuple selection on %s", x.Args[0])
+			}
+			return fmt.Sprintf("govcSel%s(%s)", x.Name, g.expr(x.Args[0]))
+		}
+		return g.expr(x.Args[0]) + "." + x.Name
+	case "call":
+		switch x.Name {
+		case "len", "cap", "min", "max":
+			return x.Name + "(" + g.args(x.Args) + ")"
+		case "ite":
+			if len(x.Args) != 3 {
+				return g.fail("ite arity")
+			}
+			if g.iteType != "" { // lazily: recursive ghost definitions rely on the untaken branch not being evaluated
+				return fmt.Sprintf("func() %s {\n\t\tif %s {\n\t\t\treturn %s\n\t\t}\n\t\treturn %s\n\t}()", g.iteType, g.expr(x.Args[0]), g.expr(x.Args[1]), g.expr(x.Args[2]))
+			}
+			return fmt.Sprintf("govcIte(%s, %s, %s)", g.expr(x.Args[0]), g.expr(x.Args[1]), g.expr(x.Args[2]))
+		case "old", "called", "result", "arg", "visited", "in", "as", "typeIs", "iface", "samearray":
+			return g.fail("%s(...) has no meaning outside the verifier", x.Name)
+		}
+		if gh, ok := g.eng.cs.Ghosts[x.Name]; ok {
+			if gh.Body == nil {
+				return g.fail("ghost function %s has no definition", x.Name)
+			}
+			if g.ghosts == nil {
+				g.ghosts = map[string]bool{}
+			}
+			g.ghosts[x.Name] = true
+			var as []string
+			for i, a := range x.Args {
+				t := g.expr(a)
+				if i < len(gh.Params) {
+					if gt, ok := goTypeOfGhost[gh.Params[i].Type]; ok && gt != "string" && gt != "bool" {
+						t = gt + "(" + t + ")"
+					}
+				}
+				as = append(as, t)
+			}
+			return "govcGhost_" + x.Name + "(" + strings.Join(as, ", ") + ")"
+		}
+		if i := strings.Index(x.Name, "."); i > 0 {
+			pn := x.Name[:i]
+			for _, p := range g.eng.tpkgs {
+				if p.Name() == pn {
+					g.imports[p.Name()] = p.Path()
+				}
+			}
+		}
+		return x.Name + "(" + g.args(x.Args) + ")"
+	case "mcall":
+		return g.expr(x.Args[0]) + "." + x.Name + "(" + g.args(x.Args[1:]) + ")"
+	case "index":
+		return g.expr(x.Args[0]) + "[" + g.expr(x.Args[1]) + "]"
+	case "slice":
+		lo, hi := "", ""
+		if x.Args[1] != nil {
+			lo = g.expr(x.Args[1])
+		}
+		if x.Args[2] != nil {
+			hi = g.expr(x.Args[2])
+		}
+		return g.expr(x.Args[0]) + "[" + lo + ":" + hi + "]"
+	case "not":
+		return "!(" + g.expr(x.Args[0]) + ")"
+	case "neg":
+		return "-(" + g.expr(x.Args[0]) + ")"
+	case "deref":
+		return g.fail("heap read")
+	case "old":
+		return g.fail("old()")
+	case "forall", "exists":
+		if t, ok := g.boundedQuant(x); ok {
+			return t
+		}
+		return g.fail("quantifier without an integer range")
+	case "==>":
+		return "(!(" + g.expr(x.Args[0]) + ") || (" + g.expr(x.Args[1]) + "))"
+	case "<==>":
+		return "((" + g.expr(x.Args[0]) + ") == (" + g.expr(x.Args[1]) + "))"
+	}
+	if len(x.Args) == 2 {
+		return "(" + g.expr(x.Args[0]) + " " + x.Op + " " + g.expr(x.Args[1]) + ")"
+	}
+	return g.fail("expression %s", x)
+}
+
+func (g *goTr) isLocalName(n string) bool {
+	for _, p := range g.fn.Params {
+		if p.Name() == n {
+			return true
+		}
+	}
+	return false
+}
+
+func (g *goTr) args(as []*Ex) string {
+	var ss []string
+	for _, a := range as {
+		ss = append(ss, g.expr(a))
+	}
+	return strings.Join(ss, ", ")
+}
+
+// clauseOf finds the contract clause an obligation came from (post obligations of the function's own contract).
+func clauseOf(o *Obligation) *Clause {
+	if o.fe == nil || o.fe.fc == nil {
+		return nil
+	}
+	for _, c := range o.fe.fc.Clauses {
+		if c.Kind != "ensures" && c.Kind != "atreturn" {
+			continue
+		}
+		if strings.HasSuffix(o.Name, "#post#"+clauseKey(c, "ensures")) || strings.HasSuffix(o.Name, "#post#"+clauseKey(c, "atreturn")) {
+			return c
+		}
+	}
+	return nil
+}
 
 func tryReplay(eng *Engine, o *Obligation) (string, bool) {
-	return "", false
+	if o.fe == nil || !replayable(o.fe.fn) {
+		return "", false
+	}
+	fn := o.fe.fn
+	pkg := fn.Pkg.Pkg
+	qual := func(p *types.Package) string {
+		if p == pkg {
+			return ""
+		}
+		return p.Name()
+	}
+	g := &goTr{fn: fn, eng: eng, imports: map[string]string{}}
+	var b strings.Builder
+	var callArgs []string
+	params := fn.Params
+	if fn.Signature.Recv() != nil {
+		params = params[1:]
+	}
+	for _, p := range params {
+		lit, ok := o.goLiteral(p, qual)
+		if !ok {
+			return fmt.Sprintf("the model gives no usable value for parameter %s (strings longer than %d bytes are not rebuilt)", p.Name(), replayMaxStr), false
+		}
+		_ = lit
+		callArgs = append(callArgs, "in_"+p.Name())
+	}
+	nres := fn.Signature.Results().Len()
+	var rets []string
+	for i := 0; i < nres; i++ {
+		rets = append(rets, fmt.Sprintf("ret%d", i))
+	}
+	callee := fn.Name()
+	if fn.Signature.Recv() != nil {
+		callee = "in_" + fn.Params[0].Name() + "." + fn.Name()
+	}
+	clauseGo, clauseSrc := "", ""
+	safety := isSafetyKind(o.Kind)
+	if !safety {
+		if o.Kind != "post" {
+			return "only postconditions and runtime faults are replayed", false
+		}
+		c := clauseOf(o)
+		if c == nil {
+			return "", false
+		}
+		clauseSrc = c.Src
+		body := g.expr(c.Expr)
+		if c.When != nil {
+			body = "(!(" + g.expr(c.When) + ") || (" + body + "))"
+		}
+		if g.err != nil {
+			return "the clause cannot be evaluated outside the verifier: " + g.err.Error(), false
+		}
+		clauseGo = body
+	}
+	b.WriteString("package " + pkg.Name() + "\n\n// Generated by govc: the verifier's counterexample for\n//   " + o.Name + "\n// replayed against the real function.\n\nimport (\n\t\"fmt\"\n\t\"testing\"\n")
+	for _, n := range sortedKeys(g.imports) {
+		if g.imports[n] == pkg.Path() || n == "fmt" || n == "testing" {
+			continue
+		}
+		fmt.Fprintf(&b, "\t%s %q\n", n, g.imports[n])
+	}
+	// parameter types may name other packages
+	for _, p := range fn.Params {
+		if nt, ok := p.Type().(*types.Named); ok && nt.Obj().Pkg() != nil && nt.Obj().Pkg() != pkg {
+			if _, ok := g.imports[nt.Obj().Pkg().Name()]; !ok {
+				fmt.Fprintf(&b, "\t%s %q\n", nt.Obj().Pkg().Name(), nt.Obj().Pkg().Path())
+			}
+		}
+	}
+	b.WriteString(")\n\n")
+	b.WriteString(g.ghostFuncs())
+	if g.err != nil {
+		return "the clause cannot be evaluated outside the verifier: " + g.err.Error(), false
+	}
+	b.WriteString("func govcAll(lo, hi int, p func(int) bool) bool {\n\tfor i := lo; i < hi; i++ {\n\t\tif !p(i) {\n\t\t\treturn false\n\t\t}\n\t}\n\treturn true\n}\nfunc govcAny(lo, hi int, p func(int) bool) bool {\n\tfor i := lo; i < hi; i++ {\n\t\tif p(i) {\n\t\t\treturn true\n\t\t}\n\t}\n\treturn false\n}\n")
+	b.WriteString("func govcSel0[A, B any](a A, b B) A { return a }\nfunc govcSel1[A, B any](a A, b B) B { return b }\nfunc govcIte[T any](c bool, a, b T) T {\n\tif c {\n\t\treturn a\n\t}\n\treturn b\n}\n\n")
+	// candidate inputs: the model's values first, then a bounded neighbourhood built from the string literals of the
+	// function and of the clause, boundary numbers and the model's integers (the solver's model interprets library
+	// functions freely, so its strings rarely mean anything to the real parser)
+	toks := replayTokens(fn, o)
+	b.WriteString("var govcToks = []string{")
+	for _, t := range toks {
+		b.WriteString(strconv.Quote(t) + ", ")
+	}
+	b.WriteString("}\n\n")
+	b.WriteString("func govcStrings(first string, depth int, limit int) []string {\n\tout := []string{first, \"\"}\n\tvar rec func(prefix string, d int)\n\trec = func(prefix string, d int) {\n\t\tif len(out) >= limit {\n\t\t\treturn\n\t\t}\n\t\tif prefix != \"\" {\n\t\t\tout = append(out, prefix)\n\t\t}\n\t\tif d == 0 {\n\t\t\treturn\n\t\t}\n\t\tfor _, t := range govcToks {\n\t\t\trec(prefix+t, d-1)\n\t\t}\n\t}\n\trec(\"\", depth)\n\treturn out\n}\n\n")
+	b.WriteString("var govcInts = []int64{0, 1, 2, 3, 10, 100, 999, 1000, 1001, 65535, 2147483647, 2147483648, 4294967295, 9223372036854775807, -1, -2147483648}\n\n")
+	nStr, nInt := 0, 0
+	for _, p := range fn.Params {
+		switch o.fe.vals[p].Sort {
+		case "Str":
+			nStr++
+		case "Int":
+			nInt++
+		}
+	}
+	depth := 5
+	if nStr > 1 {
+		depth = 4
+	}
+	intList := "govcInts"
+	if nStr > 0 && nInt > 0 {
+		intList = "[]int64{0, 1, 10, 100, 1000, 9223372036854775807}"
+	}
+	b.WriteString("func TestGovcReplay(t *testing.T) {\n")
+	b.WriteString("\ttried := 0\n")
+	// nested loops over the candidates of each parameter
+	indent := "\t"
+	all := fn.Params
+	if len(all) > 0 && fn.Signature.Recv() != nil && !simpleType(all[0].Type()) {
+		fmt.Fprintf(&b, "\tvar in_%s %s // zero value\n", all[0].Name(), types.TypeString(all[0].Type(), qual))
+		all = all[1:]
+	}
+	var lits []string
+	for _, p := range all {
+		lit, ok := o.goLiteral(p, qual)
+		if !ok {
+			return fmt.Sprintf("the model gives no usable value for parameter %s (strings longer than %d bytes are not rebuilt)", p.Name(), replayMaxStr), false
+		}
+		lits = append(lits, lit)
+	}
+	firstStr := true
+	for i, p := range all {
+		ty := types.TypeString(p.Type(), qual)
+		switch o.fe.vals[p].Sort {
+		case "Bool":
+			fmt.Fprintf(&b, "%sfor _, c_%s := range []bool{bool(%s), !bool(%s)} {\n%s\tin_%s := %s(c_%s)\n", indent, p.Name(), lits[i], lits[i], indent, p.Name(), ty, p.Name())
+		case "Int":
+			fmt.Fprintf(&b, "%sfor _, c_%s := range append([]int64{int64(%s)}, %s...) {\n%s\tin_%s := %s(c_%s)\n%s\tif int64(in_%s) != c_%s {\n%s\t\tcontinue\n%s\t}\n", indent, p.Name(), lits[i], intList, indent, p.Name(), ty, p.Name(), indent, p.Name(), p.Name(), indent, indent)
+		case "Str":
+			d, lim := depth, 400000
+			if !firstStr {
+				d, lim = 1, 40
+			}
+			firstStr = false
+			fmt.Fprintf(&b, "%sfor _, c_%s := range govcStrings(string(%s), %d, %d) {\n%s\tin_%s := %s(c_%s)\n", indent, p.Name(), lits[i], d, lim, indent, p.Name(), ty, p.Name())
+		}
+		indent += "\t"
+	}
+	var inNames []string
+	for _, p := range fn.Params {
+		inNames = append(inNames, "in_"+p.Name())
+	}
+	fmt.Fprintf(&b, "%stried++\n%sif tried > 3000000 {\n%s\tfmt.Println(\"GOVC-REPLAY: SEARCH-EXHAUSTED\")\n%s\treturn\n%s}\n", indent, indent, indent, indent, indent)
+	fmt.Fprintf(&b, "%sif govcTry(%s) {\n%s\tfmt.Printf(\"GOVC-REPLAY: INPUT-NUMBER %%d%s\\n\", tried, %s)\n%s\treturn\n%s}\n", indent, strings.Join(inNames, ", "), indent, strings.Repeat(" %#v", len(inNames)), strings.Join(inNames, ", "), indent, indent)
+	for range all {
+		indent = indent[:len(indent)-1]
+		b.WriteString(indent + "}\n")
+	}
+	b.WriteString("\tfmt.Printf(\"GOVC-REPLAY: NOT-REPRODUCED after %d inputs\\n\", tried)\n}\n\n")
+	// one trial: true when the real code shows the failure
+	var sigParams []string
+	for _, p := range fn.Params {
+		sigParams = append(sigParams, fmt.Sprintf("in_%s %s", p.Name(), types.TypeString(p.Type(), qual)))
+	}
+	fmt.Fprintf(&b, "func govcTry(%s) (failed bool) {\n", strings.Join(sigParams, ", "))
+	if safety {
+		b.WriteString("\tdefer func() {\n\t\tif r := recover(); r != nil {\n\t\t\tfmt.Printf(\"GOVC-REPLAY: PANIC %v\\n\", r)\n\t\t\tfailed = true\n\t\t}\n\t}()\n")
+	} else {
+		b.WriteString("\tdefer func() {\n\t\tif r := recover(); r != nil {\n\t\t\tfailed = false // the function or the clause cannot be evaluated for this input\n\t\t}\n\t}()\n")
+	}
+	if nres > 0 {
+		fmt.Fprintf(&b, "\t%s := %s(%s)\n", strings.Join(rets, ", "), callee, strings.Join(callArgs, ", "))
+		for _, r := range rets {
+			fmt.Fprintf(&b, "\t_ = %s\n", r)
+		}
+	} else {
+		fmt.Fprintf(&b, "\t%s(%s)\n", callee, strings.Join(callArgs, ", "))
+	}
+	if !safety {
+		fmt.Fprintf(&b, "\t// clause: %s\n", strings.ReplaceAll(clauseSrc, "\n", " "))
+		fmt.Fprintf(&b, "\tif !(%s) {\n", clauseGo)
+		if nres > 0 {
+			fmt.Fprintf(&b, "\t\tfmt.Printf(\"GOVC-REPLAY: CLAUSE-FALSE results:%s\\n\", %s)\n", strings.Repeat(" %#v", nres), strings.Join(rets, ", "))
+		} else {
+			b.WriteString("\t\tfmt.Println(\"GOVC-REPLAY: CLAUSE-FALSE\")\n")
+		}
+		b.WriteString("\t\treturn true\n\t}\n")
+	}
+	b.WriteString("\treturn false\n}\n")
+	src := b.String()
+
+	// run it inside the package through an overlay
+	pkgDir := ""
+	for _, p := range eng.pkgs {
+		if p.Types == pkg && len(p.GoFiles) > 0 {
+			pkgDir = filepath.Dir(p.GoFiles[0])
+		}
+	}
+	if pkgDir == "" {
+		return "", false
+	}
+	tmp, err := os.MkdirTemp("", "govc-replay")
+	if err != nil {
+		return "", false
+	}
+	defer os.RemoveAll(tmp)
+	testFile := filepath.Join(tmp, "zz_govc_replay_test.go")
+	os.WriteFile(testFile, []byte(src), 0o644)
+	ov, _ := json.Marshal(map[string]any{"Replace": map[string]string{filepath.Join(pkgDir, "zz_govc_replay_test.go"): testFile}})
+	ovFile := filepath.Join(tmp, "ov.json")
+	os.WriteFile(ovFile, ov, 0o644)
+	ctx, cancel := context.WithTimeout(context.Background(), 120*time.Second)
+	defer cancel()
+	cmd := exec.CommandContext(ctx, "go", "test", "-v", "-overlay", ovFile, "-vet=off", "-count=1", "-timeout", "60s", "-run", "^TestGovcReplay$", ".")
+	cmd.Dir = pkgDir
+	cmd.Env = append(os.Environ(), "GOFLAGS=-mod=mod", "GOPROXY=off", "GOSUMDB=off", "GOTOOLCHAIN=local")
+	var out bytes.Buffer
+	cmd.Stdout, cmd.Stderr = &out, &out
+	_ = cmd.Run()
+	log := out.String()
+	confirmed := strings.Contains(log, "GOVC-REPLAY: INPUT-NUMBER")
+	var rep strings.Builder
+	rep.WriteString("Go test generated from the model (run inside the package: /verif/replay/inpkg.sh <package dir> <this test> '^TestGovcReplay$'):\n\n")
+	rep.WriteString(src)
+	rep.WriteString("\noutput of the run against the real code:\n")
+	var lines []string
+	for _, l := range strings.Split(log, "\n") {
+		if strings.Contains(l, "GOVC-REPLAY") || strings.HasPrefix(l, "panic:") || strings.HasPrefix(l, "FAIL") || strings.HasPrefix(l, "ok") || strings.Contains(l, "zz_govc_replay_test.go") {
+			lines = append(lines, "  "+l)
+		}
+	}
+	if len(lines) == 0 {
+		lines = append(lines, "  "+trunc2(log, 1500))
+	}
+	rep.WriteString(strings.Join(lines, "\n"))
+	if confirmed {
+		if strings.Contains(log, "GOVC-REPLAY: INPUT-NUMBER 1 ") {
+			rep.WriteString("\n=> the real code shows the failure for the model's inputs\n")
+		} else {
+			rep.WriteString("\n=> the real code shows the failure for the input printed above; it was found by a bounded search around the model (literals of the function and the clause, boundary numbers, the model's integers) because the model's own strings mean nothing to the real library parsers\n")
+		}
+	} else {
+		rep.WriteString("\n=> the real code does not show the failure for the model's inputs nor for the bounded neighbourhood searched (the model interprets library functions freely)\n")
+	}
+	return rep.String(), confirmed
+}
+
+// replayTokens: building blocks for candidate strings.
+func replayTokens(fn *ssa.Function, o *Obligation) []string {
+	seen := map[string]bool{}
+	var out []string
+	add := func(t string) {
+		if t == "" || len(t) > 16 || seen[t] || len(out) >= 22 {
+			return
+		}
+		seen[t] = true
+		out = append(out, t)
+	}
+	var lits func(x *Ex)
+	lits = func(x *Ex) {
+		if x == nil {
+			return
+		}
+		if x.Op == "str" {
+			add(x.Name)
+		}
+		for _, a := range x.Args {
+			lits(a)
+		}
+	}
+	if c := clauseOf(o); c != nil {
+		lits(c.Expr)
+		lits(c.When)
+	}
+	for _, b := range fn.Blocks {
+		for _, in := range b.Instrs {
+			for _, op := range in.Operands(nil) {
+				if c, ok := (*op).(*ssa.Const); ok && c.Value != nil && isString(c.Type()) {
+					add(constantString(c))
+				}
+			}
+		}
+	}
+	for _, k := range sortedKeys(o.Model) {
+		if n, ok := smtInt(o.Model[k]); ok && !strings.Contains(k, "at_s") && !strings.Contains(k, "len_s") {
+			add(strconv.FormatInt(n, 10))
+		}
+	}
+	for _, t := range []string{"0", "1", "5", "9", "10", "1000", "1001", "4294967295", "2147483648", "-1", "-", "=", "/", ".", "..", ",", "*", "a"} {
+		add(t)
+	}
+	return out
 }
